@@ -104,23 +104,12 @@ Definition span_ok (s : span_st) : Prop :=
   Forall (fun kv => exists v, snd kv = span_value v) (sp_fields s).
 Definition state_ok (st : state) : Prop := Forall (fun p => span_ok (snd p)) (spans st).
 
-Definition next (c : cfg) (st : state) (x : op) : state :=
-  match x with
-  | ONew i name p vals =>
-      let parent := match p with PCurrent => current st | PRoot => None | PExplicit j => Some j end in
-      {| spans := spans st ++ [(i, {| sp_name := name; sp_parent := parent; sp_fields := visit_span [] vals |})];
-         stack := stack st |}
-  | OEnter i => {| spans := spans st; stack := i :: stack st |}
-  | OExit i => {| spans := spans st; stack := remove_first i (stack st) |}
-  | ORecord i vals =>
-      {| spans := update_span i (fun s => {| sp_name := sp_name s; sp_parent := sp_parent s;
-                                             sp_fields := add_fields c (sp_fields s) vals |}) (spans st);
-         stack := stack st |}
-  | OEvent _ _ => st
-  end.
 Lemma step_next c o en st x : fst (step c o en st x) = next c st x.
-Proof. destruct x; reflexivity. Qed.
+Proof. reflexivity. Qed.
 Definition state_after (c : cfg) (ops : list op) : state := fold_left (next c) ops init_state.
+
+Lemma vals_ok_eff c vals : vals_ok vals -> vals_ok (eff c vals).
+Proof. apply eff_Forall. Qed.
 
 Lemma visit_span_ok m vals :
   sorted m -> ~ In name_key (map fst m) -> Forall (fun kv => exists v, snd kv = span_value v) m -> vals_ok vals ->
@@ -148,9 +137,10 @@ Lemma next_ok c st x : state_ok st -> op_ok x -> state_ok (next c st x).
 Proof.
   unfold state_ok. intros Hst Hop. destruct x; simpl in *; auto.
   - apply Forall_app. split; auto. constructor; [|constructor]. simpl.
-    apply visit_span_ok; auto using sorted_nil.
+    apply visit_span_ok; auto using sorted_nil, vals_ok_eff.
   - apply update_span_ok; auto. intros s (Hs & Hn & Hv). unfold span_ok. simpl.
-    unfold add_fields. destruct (_ && _); [repeat split; auto|]. apply visit_span_ok; auto.
+    unfold add_fields. destruct (_ && _); [repeat split; auto|]. apply visit_span_ok; auto using vals_ok_eff.
+  - unfold remove_span. rewrite Forall_forall in *. intros q Hq. apply filter_In in Hq. apply Hst. tauto.
 Qed.
 
 Theorem state_after_ok c ops : Forall op_ok ops -> state_ok (state_after c ops).
@@ -331,6 +321,39 @@ Proof.
   do 7 (apply in_or_app; right). apply in_or_app; left. left. reflexivity.
 Qed.
 
+(** an event outside every span has neither `span` nor `spans` *)
+Lemma opt_entry_none b k : opt_entry b k None = [].
+Proof. destruct b; reflexivity. Qed.
+
+Theorem record_no_scope c o en st e p :
+  (fx10 c = false -> p = PCurrent) -> event_ok o e -> spec_event_span st p = None ->
+  ~ In (bs "span") (map fst (event_entries c o en st e p)) /\ ~ In (bs "spans") (map fst (event_entries c o en st e p)).
+Proof.
+  intros Hk [_ Hres] Hn.
+  set (M := map fst (if o_flatten o then event_fields e else [(bs "fields", JObj (event_fields e))])).
+  assert (K : forall k, In k (map fst (event_entries c o en st e p)) ->
+              In k ([bs "timestamp"] ++ [bs "level"] ++ M ++ [bs "target"] ++ [bs "filename"] ++ [bs "line_number"]
+                    ++ [] ++ [] ++ [bs "threadName"] ++ [bs "threadId"])).
+  { intros k Hin. eapply subseq_in; [|exact Hin]. unfold event_entries.
+    rewrite event_span_spec by exact Hk. rewrite Hn.
+    replace (if o_cur o || o_list o then None else None) with (@None N) by (destruct (o_cur o || o_list o); reflexivity).
+    cbn [option_map]. rewrite !opt_entry_none. rewrite !map_app.
+    repeat (apply subseq_app; [first [apply opt_entry_keys | apply subseq_refl]|]). apply opt_entry_keys. }
+  assert (R : forall k, In k reserved_keys -> In k M -> o_flatten o = true /\ In k (map fst (ev_vals e)) \/ k = bs "fields").
+  { intros k _ Hm. unfold M in Hm. destruct (o_flatten o).
+    - left. split; auto. rewrite <- event_fields_keys. exact Hm.
+    - right. destruct Hm as [<-|[]]. reflexivity. }
+  split; intro Hin; apply K in Hin; simpl in Hin.
+  - destruct Hin as [H|[H|H]]; try discriminate H. apply in_app_or in H. destruct H as [H|H].
+    + destruct (R (bs "span")) as [[Fl Hv]|E]; auto; [vm_compute; tauto | | discriminate E].
+      apply (Hres Fl _ Hv). vm_compute. tauto.
+    + simpl in H. intuition discriminate.
+  - destruct Hin as [H|[H|H]]; try discriminate H. apply in_app_or in H. destruct H as [H|H].
+    + destruct (R (bs "spans")) as [[Fl Hv]|E]; auto; [vm_compute; tauto | | discriminate E].
+      apply (Hres Fl _ Hv). vm_compute. tauto.
+    + simpl in H. intuition discriminate.
+Qed.
+
 (** "root to leaf": the scope ends with the event's own span; every element is followed by one of its children *)
 Lemma scope_leaf_last st i s : find_span i (spans st) = Some s ->
   exists l, scope_from_root st i = l ++ [s].
@@ -358,34 +381,18 @@ Qed.
 Theorem scope_is_parent_chain st i : chain (spans st) (rev (scope_from_root st i)).
 Proof. unfold scope_from_root. rewrite rev_involutive. apply ancestors_chain. Qed.
 
-(** * Histories: the fields of a span in the reached state are [fields_after] of its creation and its later records *)
-Fixpoint recs_of (i : N) (ops : list op) : list fields :=
-  match ops with
-  | [] => []
-  | ORecord j vals :: r => if i =? j then vals :: recs_of i r else recs_of i r
-  | _ :: r => recs_of i r
+(** * Histories: the fields of a span in the reached state are [fields_after] of its creation and its later records.
+    [hist_of c i ops]: the writes (those that reach the map, [eff]) of the creation of the live span with id [i] and of
+    each later record call, in order; [None] when no span with that id is alive (never created, or closed since). *)
+Definition hstep (c : cfg) (i : N) (h : option (fields * list fields)) (x : op) : option (fields * list fields) :=
+  match x with
+  | ONew j _ _ vals => if i =? j then match h with None => Some (eff c vals, []) | Some _ => h end else h
+  | ORecord j vals =>
+      if i =? j then match h with Some (init, recs) => Some (init, recs ++ [eff c vals]) | None => None end else h
+  | OClose j _ _ => if i =? j then None else h
+  | _ => h
   end.
-Fixpoint hist_of (i : N) (ops : list op) : option (fields * list fields) :=
-  match ops with
-  | [] => None
-  | ONew j _ _ vals :: r => if i =? j then Some (vals, recs_of i r) else hist_of i r
-  | _ :: r => hist_of i r
-  end.
-
-Lemma recs_of_app i a b : recs_of i (a ++ b) = recs_of i a ++ recs_of i b.
-Proof.
-  induction a as [|x a IH]; simpl; auto. destruct x; auto. destruct (i =? i0); simpl; rewrite IH; auto.
-Qed.
-Lemma hist_of_app i a b :
-  hist_of i (a ++ b) =
-  match hist_of i a with
-  | Some (init, recs) => Some (init, recs ++ recs_of i b)
-  | None => hist_of i b
-  end.
-Proof.
-  induction a as [|x a IH]; simpl; auto. destruct x; auto.
-  destruct (i =? i0); auto. rewrite recs_of_app. reflexivity.
-Qed.
+Definition hist_of (c : cfg) (i : N) (ops : list op) : option (fields * list fields) := fold_left (hstep c i) ops None.
 
 Lemma find_span_app i l j s :
   find_span i (l ++ [(j, s)]) = match find_span i l with Some s' => Some s' | None => if i =? j then Some s else None end.
@@ -401,71 +408,118 @@ Proof.
       * apply N.eqb_eq in E2. subst j'. rewrite N.eqb_sym in E1. rewrite E1. reflexivity.
       * exact IH.
 Qed.
+Lemma find_span_remove i j l : find_span i (remove_span j l) = if i =? j then None else find_span i l.
+Proof.
+  unfold remove_span. induction l as [|[j' s'] r IH]; simpl.
+  - destruct (i =? j); reflexivity.
+  - destruct (j =? j') eqn:E1; simpl.
+    + apply N.eqb_eq in E1. subst j'. rewrite IH. destruct (i =? j); reflexivity.
+    + rewrite IH. destruct (i =? j') eqn:E2; [|reflexivity].
+      apply N.eqb_eq in E2. subst j'. rewrite N.eqb_sym, E1. reflexivity.
+Qed.
 
 Lemma fields_after_snoc c init recs r :
   fields_after c init (recs ++ [r]) = add_fields c (fields_after c init recs) r.
 Proof. unfold fields_after. rewrite fold_left_app. reflexivity. Qed.
 
-Lemma find_none_hist_none c : forall ops i,
-  find_span i (spans (fold_left (next c) ops init_state)) = None -> hist_of i ops = None.
+Theorem history_inv c : forall ops i,
+  match hist_of c i ops with
+  | Some (init, recs) =>
+      exists s, find_span i (spans (state_after c ops)) = Some s /\ sp_fields s = fields_after c init recs
+  | None => find_span i (spans (state_after c ops)) = None
+  end.
 Proof.
-  induction ops as [|y ops IH] using rev_ind; intros i E; [reflexivity|].
-  rewrite fold_left_app in E. cbn [fold_left] in E. rewrite hist_of_app.
+  induction ops as [|x ops IH] using rev_ind; intro i; [reflexivity|].
+  unfold hist_of, state_after in *. rewrite !fold_left_app. cbn [fold_left].
+  specialize (IH i).
   set (st := fold_left (next c) ops init_state) in *.
-  assert (P : find_span i (spans st) = None -> hist_of i ops = None) by apply IH.
-  destruct y; cbn [next spans] in E.
-  - rewrite find_span_app in E. destruct (find_span i (spans st)); [discriminate|].
-    rewrite P by reflexivity. simpl. destruct (i =? i0); [discriminate|reflexivity].
-  - rewrite (P E). reflexivity.
-  - rewrite (P E). reflexivity.
-  - rewrite find_span_update in E. destruct (find_span i (spans st)) eqn:E'.
-    + destruct (i =? i0); simpl in E; discriminate.
-    + rewrite P by reflexivity. reflexivity.
-  - rewrite (P E). reflexivity.
+  set (h := fold_left (hstep c i) ops None) in *.
+  destruct x; cbn [hstep next spans].
+  - (* ONew *)
+    rewrite find_span_app. destruct (i =? i0) eqn:Ei.
+    + destruct h as [[init recs]|].
+      * destruct IH as (s & Hs & Hf). exists s. rewrite Hs. auto.
+      * rewrite IH. eexists. split; [reflexivity|]. reflexivity.
+    + destruct h as [[init recs]|].
+      * destruct IH as (s & Hs & Hf). exists s. rewrite Hs. auto.
+      * rewrite IH. reflexivity.
+  - exact IH.
+  - exact IH.
+  - (* ORecord *)
+    rewrite find_span_update. destruct (i =? i0) eqn:Ei; [|exact IH].
+    destruct h as [[init recs]|].
+    + destruct IH as (s & Hs & Hf). rewrite Hs. eexists. split; [reflexivity|]. simpl.
+      rewrite fields_after_snoc, Hf. reflexivity.
+    + rewrite IH. reflexivity.
+  - exact IH.
+  - (* OClose *)
+    rewrite find_span_remove. destruct (i =? i0); [reflexivity | exact IH].
 Qed.
 
 Theorem history_fields c : forall ops i s,
   find_span i (spans (state_after c ops)) = Some s ->
-  exists init recs, hist_of i ops = Some (init, recs) /\ sp_fields s = fields_after c init recs.
+  exists init recs, hist_of c i ops = Some (init, recs) /\ sp_fields s = fields_after c init recs.
 Proof.
-  induction ops as [|x ops IH] using rev_ind; intros i s H; [discriminate|].
-  unfold state_after in *. rewrite fold_left_app in H. cbn [fold_left] in H.
-  pose proof (find_none_hist_none c ops i) as FN.
-  set (st := fold_left (next c) ops init_state) in *.
-  rewrite hist_of_app.
-  destruct x; cbn [next spans] in H.
-  - (* ONew *)
-    rewrite find_span_app in H. destruct (find_span i (spans st)) as [s'|] eqn:E.
-    + inversion H; subst s'. destruct (IH i s E) as (init & recs & Hh & Hf).
-      rewrite Hh. exists init, recs. simpl. rewrite app_nil_r. auto.
-    + rewrite FN by reflexivity. simpl. destruct (i =? i0); [|discriminate]. inversion H; subst. simpl.
-      exists vals, []. split; reflexivity.
-  - destruct (IH i s H) as (init & recs & Hh & Hf). rewrite Hh. exists init, recs. simpl. rewrite app_nil_r. auto.
-  - destruct (IH i s H) as (init & recs & Hh & Hf). rewrite Hh. exists init, recs. simpl. rewrite app_nil_r. auto.
-  - (* ORecord *)
-    rewrite find_span_update in H. destruct (i =? i0) eqn:Ei.
-    + destruct (find_span i (spans st)) as [s'|] eqn:E; [|discriminate]. simpl in H. inversion H; subst s. clear H.
-      destruct (IH i s' E) as (init & recs & Hh & Hf). rewrite Hh. simpl. rewrite Ei.
-      exists init, (recs ++ [vals]). split; [reflexivity|]. simpl. rewrite fields_after_snoc, Hf. reflexivity.
-    + destruct (IH i s H) as (init & recs & Hh & Hf). rewrite Hh. simpl. rewrite Ei.
-      exists init, recs. rewrite app_nil_r. auto.
-  - destruct (IH i s H) as (init & recs & Hh & Hf). rewrite Hh. exists init, recs. simpl. rewrite app_nil_r. auto.
+  intros ops i s H. pose proof (history_inv c ops i) as I.
+  destruct (hist_of c i ops) as [[init recs]|].
+  - destruct I as (s' & Hs & Hf). rewrite H in Hs. inversion Hs; subst. exists init, recs. auto.
+  - rewrite H in I. discriminate.
 Qed.
 
-(** every line a history writes is the record of one of its events in the state reached by the operations before it *)
-Lemma run_from_spec c o en : forall ops st line,
-  In line (run_from c o en st ops) ->
-  exists pre e p post, ops = pre ++ OEvent e p :: post /\
-                       line = render_line (event_record c o en (fold_left (next c) pre st) e p).
+(** a closed span is gone: its fields never reach a later record *)
+Theorem closed_span_gone c ops i busy idle : find_span i (spans (state_after c (ops ++ [OClose i busy idle]))) = None.
 Proof.
-  induction ops as [|x ops IH]; intros st line H; [inversion H|].
-  cbn [run_from] in H. destruct (step c o en st x) as [st' out] eqn:E.
-  assert (Est : st' = next c st x) by (rewrite <- step_next with (o := o) (en := en), E; reflexivity).
+  unfold state_after. rewrite fold_left_app. cbn [fold_left next spans]. rewrite find_span_remove, N.eqb_refl. reflexivity.
+Qed.
+
+(** * Span-lifecycle records *)
+Lemma life_event_ok o s msg t : event_ok o (life_event s msg t).
+Proof.
+  split.
+  - destruct t as [[b i]|]; apply nodupb_sound; vm_compute; reflexivity.
+  - intros _ k Hk. revert Hk. destruct t as [[b i]|]; vm_compute; intuition; subst; discriminate.
+Qed.
+
+Lemma exists_span_find st i s : find_span i (spans st) = Some s -> exists_span st i = true.
+Proof. intro H. unfold exists_span. rewrite H. reflexivity. Qed.
+
+Lemma event_span_explicit c st i s : find_span i (spans st) = Some s -> event_span c st (PExplicit i) = Some i.
+Proof. intro H. unfold event_span. rewrite (exists_span_find st i s H). destruct (fx10 c); reflexivity. Qed.
+
+(** every line an operation writes is the record of an event with well-formed field names, in the state before or
+    after the registry's part of the operation *)
+Lemma emit_spec c o en st x line :
+  (forall e p, x = OEvent e p -> event_ok o e) ->
+  In line (emit c o en st x) ->
+  exists st' e p, (st' = st \/ st' = next c st x) /\ event_ok o e /\ line = render_line (event_record c o en st' e p).
+Proof.
+  intros Hev H. unfold emit, life_lines in H.
+  destruct x.
+  - destruct (o_new o); [|inversion H]. destruct (find_span _ _) as [s|]; [|inversion H]. destruct H as [<-|[]].
+    eexists _, _, _. split; [right; reflexivity|]. split; [apply life_event_ok | reflexivity].
+  - destruct (o_enter o); [|inversion H]. destruct (find_span _ _) as [s|]; [|inversion H]. destruct H as [<-|[]].
+    eexists _, _, _. split; [right; reflexivity|]. split; [apply life_event_ok | reflexivity].
+  - destruct (o_exit o); [|inversion H]. destruct (find_span _ _) as [s|]; [|inversion H]. destruct H as [<-|[]].
+    eexists _, _, _. split; [right; reflexivity|]. split; [apply life_event_ok | reflexivity].
+  - inversion H.
+  - destruct H as [<-|[]]. exists st, e, p. split; [left; reflexivity|]. split; [apply (Hev e p eq_refl) | reflexivity].
+  - destruct (o_close o); [|inversion H]. destruct (find_span _ _) as [s|]; [|inversion H]. destruct H as [<-|[]].
+    eexists _, _, _. split; [left; reflexivity|]. split; [apply life_event_ok | reflexivity].
+Qed.
+
+Lemma run_from_records c o en : forall ops st line,
+  state_ok st -> Forall op_ok ops -> (forall e p, In (OEvent e p) ops -> event_ok o e) ->
+  In line (run_from c o en st ops) ->
+  exists st' e p, state_ok st' /\ event_ok o e /\ line = render_line (event_record c o en st' e p).
+Proof.
+  induction ops as [|x ops IH]; intros st line Hst Hops Hev H; [inversion H|].
+  cbn [run_from] in H. inversion Hops as [|? ? Hx Hr]; subst.
+  assert (Hst' : state_ok (next c st x)) by (apply next_ok; assumption).
   apply in_app_or in H. destruct H as [H|H].
-  - destruct x; simpl in E; inversion E; subst out; try (inversion H; fail).
-    destruct H as [<-|[]]. exists [], e, p, ops. split; reflexivity.
-  - destruct (IH st' line H) as (pre & e & p & post & -> & ->).
-    exists (x :: pre), e, p, post. split; [reflexivity|]. simpl. rewrite Est. reflexivity.
+  - apply emit_spec in H.
+    + destruct H as (st' & e & p & [->| ->] & He & ->); [exists st, e, p | exists (next c st x), e, p]; auto.
+    + intros e p ->. apply (Hev e p). left. reflexivity.
+  - apply (IH (next c st x) line); auto. intros e p Hin. apply (Hev e p). right. exact Hin.
 Qed.
 
 Theorem run_records c o en ops line :
@@ -474,21 +528,100 @@ Theorem run_records c o en ops line :
   exists kvs, line = render (JObj kvs) ++ [10] /\ uniq (JObj kvs) /\
               ~ In 10 (render (JObj kvs)) /\ ~ In 13 (render (JObj kvs)).
 Proof.
-  intros Hops Hev H. unfold run in H. apply run_from_spec in H.
-  destruct H as (pre & e & p & post & -> & ->).
-  exists (event_entries c o en (fold_left (next c) pre init_state) e p). split; [reflexivity|]. split.
-  - apply record_uniq.
-    + apply state_after_ok. apply Forall_app in Hops. tauto.
-    + apply (Hev e p). apply in_or_app. right. left. reflexivity.
-  - apply single_line.
+  intros Hops Hev H. unfold run in H.
+  apply run_from_records in H; auto; [|constructor].
+  destruct H as (st' & e & p & Hst & He & ->).
+  exists (event_entries c o en st' e p). split; [reflexivity|]. split; [apply record_uniq; assumption | apply single_line].
+Qed.
+
+(** the per-operation view used by the correspondence is the same output *)
+Lemma run_ops_concat c o en : forall ops st, concat (run_ops_from c o en st ops) = run_from c o en st ops.
+Proof. induction ops as [|x ops IH]; intro st; [reflexivity|]. simpl. rewrite IH. reflexivity. Qed.
+
+(** events (not lifecycle points) write exactly one record, in the state the operations before them reached *)
+Theorem event_writes_one_record c o en st e p :
+  emit c o en st (OEvent e p) = [render_line (event_record c o en st e p)] /\ next c st (OEvent e p) = st.
+Proof. split; reflexivity. Qed.
+
+(** each configured lifecycle point writes exactly one record: an event with the span's own metadata, the span as its
+    explicit parent and `message` = new / enter / exit / close; an unconfigured point writes nothing *)
+Theorem lifecycle_points c o en st :
+  (forall i m p vals s, find_span i (spans (next c st (ONew i m p vals))) = Some s ->
+     emit c o en st (ONew i m p vals) =
+     if o_new o then [render_line (event_record c o en (next c st (ONew i m p vals)) (life_event s "new" None) (PExplicit i))] else []) /\
+  (forall i s, find_span i (spans st) = Some s ->
+     emit c o en st (OEnter i) =
+     (if o_enter o then [render_line (event_record c o en (next c st (OEnter i)) (life_event s "enter" None) (PExplicit i))] else []) /\
+     emit c o en st (OExit i) =
+     (if o_exit o then [render_line (event_record c o en (next c st (OExit i)) (life_event s "exit" None) (PExplicit i))] else []) /\
+     forall busy idle, emit c o en st (OClose i busy idle) =
+     (if o_close o then [render_line (event_record c o en st
+                           (life_event s "close" (if has_timer o then Some (busy, idle) else None)) (PExplicit i))] else [])).
+Proof.
+  split.
+  - intros i m p vals s H. unfold emit, life_lines. rewrite H. reflexivity.
+  - intros i s H. unfold emit, life_lines. cbn [next spans]. rewrite H. repeat split; reflexivity.
+Qed.
+
+(** what a lifecycle record says: `message` is the point's name, and (with_current_span) `span` is the span itself with
+    all fields recorded so far — on the tree as it is and on the repaired one (an explicit parent that exists is honoured
+    by both) *)
+Theorem lifecycle_record_content c o en st i s msg t :
+  find_span i (spans st) = Some s ->
+  In (bs "message", JStr (bs msg)) (event_fields (life_event s msg t)) /\
+  (o_cur o = true -> In (bs "span", span_obj s) (event_entries c o en st (life_event s msg t) (PExplicit i))) /\
+  (o_level o = true -> In (bs "level", JStr (level_text (sm_level (sp_meta s)))) (event_entries c o en st (life_event s msg t) (PExplicit i))) /\
+  (o_target o = true -> In (bs "target", JStr (sm_target (sp_meta s))) (event_entries c o en st (life_event s msg t) (PExplicit i))).
+Proof.
+  intro H. split; [left; reflexivity|]. split; [|split].
+  - intro Hc. apply record_span with (i := i); auto. eapply event_span_explicit; eauto.
+  - intro Hl. unfold event_entries. rewrite Hl. apply in_or_app; right. apply in_or_app; left. left. reflexivity.
+  - intro Ht. unfold event_entries. rewrite Ht. do 3 (apply in_or_app; right). apply in_or_app; left. left. reflexivity.
+Qed.
+
+(** * The `tracing-log` build differs from the plain build only on `log.*` names: a history whose span field names never
+    start with `log.` writes the same lines in both *)
+Definition no_log_names (x : op) : Prop :=
+  match x with
+  | ONew _ _ _ vals | ORecord _ vals => Forall (fun kv => has_prefix (bs "log.") (fst kv) = false) vals
+  | _ => True
+  end.
+
+Lemma eff_no_prefix c vals : Forall (fun kv => has_prefix (bs "log.") (fst kv) = false) vals -> eff c vals = vals.
+Proof.
+  intro H. unfold eff. induction H as [|[k v] r Hk Hr IH]; [reflexivity|]. simpl.
+  rewrite (log_skipped_prefix c k v Hk). simpl. rewrite IH. reflexivity.
+Qed.
+
+Definition with_log (c : cfg) (lg : bool) : cfg := {| fx10 := fx10 c; fx141 := fx141 c; feat_log := lg |}.
+
+Lemma next_log_inert c lg st x : no_log_names x -> next (with_log c lg) st x = next c st x.
+Proof.
+  intro H. destruct x; simpl in *; try reflexivity.
+  - rewrite !eff_no_prefix by exact H. reflexivity.
+  - rewrite !eff_no_prefix by exact H. reflexivity.
+Qed.
+
+Lemma emit_log_inert c lg o en st x : no_log_names x -> emit (with_log c lg) o en st x = emit c o en st x.
+Proof.
+  intro H. destruct x; try reflexivity.
+  - unfold emit. rewrite next_log_inert by exact H. reflexivity.
+Qed.
+
+Theorem log_feature_inert c lg o en : forall ops st,
+  Forall no_log_names ops -> run_ops_from (with_log c lg) o en st ops = run_ops_from c o en st ops.
+Proof.
+  induction ops as [|x ops IH]; intros st H; [reflexivity|]. inversion H; subst. simpl.
+  rewrite emit_log_inert, next_log_inert by assumption. rewrite IH by assumption. reflexivity.
 Qed.
 
 (** * Findings as refutations *)
 Definition f10_ops : list op :=
-  [ONew 0 (bs "root") PRoot []; ONew 1 (bs "child") (PExplicit 0) []].
+  [ONew 0 (meta_named (bs "root")) PRoot []; ONew 1 (meta_named (bs "child")) (PExplicit 0) []].
 Definition f10_opts : opts :=
   {| o_flatten := false; o_cur := true; o_list := true; o_ts := None; o_level := true; o_target := true;
-     o_file := false; o_line := false; o_tname := false; o_tid := false |}.
+     o_file := false; o_line := false; o_tname := false; o_tid := false;
+     o_new := false; o_enter := false; o_exit := false; o_close := false |}.
 Definition f10_event : event := {| ev_level := 2; ev_target := bs "t"; ev_file := None; ev_line := None; ev_vals := [] |}.
 
 (** F10: spans root -> child, nothing entered, event with explicit parent `child`: the list is empty although the
@@ -498,7 +631,7 @@ Theorem F10_refuted : forall c en, fx10 c = false ->
   In (bs "spans", JArr []) (event_entries c f10_opts en st f10_event (PExplicit 1)) /\
   map sp_name (spec_scope st (PExplicit 1)) = [bs "root"; bs "child"].
 Proof.
-  intros [a b] en H. simpl in H. subst a. split.
+  intros [a b l] en H. simpl in H. subst a. split.
   - unfold event_entries, f10_opts. cbn [o_cur o_list orb o_flatten o_ts o_level o_target o_file o_line o_tname o_tid].
     do 7 (apply in_or_app; right). apply in_or_app; left. vm_compute. left. reflexivity.
   - vm_compute. reflexivity.
@@ -506,9 +639,23 @@ Qed.
 
 (** ... second face: an explicit ROOT event is still attributed to the entered span *)
 Theorem F10_refuted_root : forall c, fx10 c = false ->
-  let st := state_after c [ONew 0 (bs "other") PRoot []; OEnter 0] in
+  let st := state_after c [ONew 0 (meta_named (bs "other")) PRoot []; OEnter 0] in
   event_span c st PRoot = Some 0 /\ spec_event_span st PRoot = None.
-Proof. intros [a b] H. simpl in H. subst a. split; reflexivity. Qed.
+Proof. intros [a b l] H. simpl in H. subst a. split; reflexivity. Qed.
+
+(** ... third face: the "new" lifecycle record of a span created while nothing is entered names the span under `span`
+    and prints an empty `spans` list, although the record's scope is [root; child] *)
+Theorem F10_refuted_lifecycle : forall c en, fx10 c = false ->
+  let st := state_after c f10_ops in
+  forall s, find_span 1 (spans st) = Some s ->
+  In (bs "spans", JArr []) (event_entries c f10_opts en st (life_event s "new" None) (PExplicit 1)) /\
+  In (bs "span", span_obj s) (event_entries c f10_opts en st (life_event s "new" None) (PExplicit 1)).
+Proof.
+  intros [a b l] en H. simpl in H. subst a. intros st s Hs. split.
+  - unfold event_entries, f10_opts. cbn [o_cur o_list orb o_flatten o_ts o_level o_target o_file o_line o_tname o_tid].
+    do 7 (apply in_or_app; right). apply in_or_app; left. vm_compute. left. reflexivity.
+  - apply record_span with (i := 1); auto; eapply event_span_explicit; eauto.
+Qed.
 
 (** F143: two fields with one name at one event callsite give an object with a duplicate key *)
 Theorem F143_refuted : forall c o en st p,
@@ -524,10 +671,11 @@ Qed.
 
 (** non-vacuity of record_uniq / record_span_list: a reachable state with a recorded-into span, flattened event *)
 Example record_witness :
-  let ops := [ONew 0 (bs "root") PRoot [([97], VU64 1)]; OEnter 0; ONew 1 (bs "leaf") PCurrent [];
+  let ops := [ONew 0 (meta_named (bs "root")) PRoot [([97], VU64 1)]; OEnter 0; ONew 1 (meta_named (bs "leaf")) PCurrent [];
               ORecord 1 [([98], VStr [34])]; ORecord 1 [([98], VBool true)]; OEnter 1] in
   let o := {| o_flatten := true; o_cur := true; o_list := true; o_ts := Some (bs "T"); o_level := true; o_target := true;
-              o_file := true; o_line := true; o_tname := true; o_tid := true |} in
+              o_file := true; o_line := true; o_tname := true; o_tid := true;
+              o_new := true; o_enter := true; o_exit := true; o_close := true |} in
   let e := {| ev_level := 0; ev_target := bs "t"; ev_file := Some (bs "f"); ev_line := Some 7;
               ev_vals := [(bs "message", VText [10]); (bs "k", VF64 0)] |} in
   forall c, Forall op_ok ops /\ event_ok o e /\
@@ -539,8 +687,8 @@ Proof.
   - split.
     + apply nodupb_sound. vm_compute. reflexivity.
     + intros _ k Hk. revert Hk. vm_compute. intuition; subst; discriminate.
-  - destruct c as [a b]; destruct a, b; vm_compute; reflexivity.
-  - destruct c as [a b]; destruct a, b; vm_compute; reflexivity.
+  - destruct c as [a b l]; destruct a, b, l; vm_compute; reflexivity.
+  - destruct c as [a b l]; destruct a, b, l; vm_compute; reflexivity.
 Qed.
 
 (** * The model agrees with the shape facts the translator reads off the source *)
@@ -550,14 +698,28 @@ Theorem gen_matches_model :
   gen_trailing_newline = true /\ gen_span_list_from_root = true /\
   gen_jsonvisitor_methods = model_jsonvisitor_methods /\
   gen_jsonvisitor_strip_raw = model_jsonvisitor_strip_raw /\
-  gen_serdemap_methods = model_serdemap_methods.
+  gen_serdemap_methods = model_serdemap_methods /\
+  gen_jsonvisitor_log_skip = model_jsonvisitor_log_skip /\
+  gen_lifecycle = model_lifecycle /\ gen_lifecycle_parent_is_span = true /\ gen_timing_off_without_time = true.
 Proof. repeat split; reflexivity. Qed.
+
+(** the model's string escaping IS serde_json's ESCAPE table (read from the dependency's source on every run), on every
+    byte value *)
+Theorem escape_table_matches : forall b, b < 256 -> escape_byte b = escape_from_table gen_escape_table b.
+Proof.
+  assert (C : forallb (fun n => beqb (escape_byte (N.of_nat n)) (escape_from_table gen_escape_table (N.of_nat n)))
+                      (seq 0 256) = true) by (vm_compute; reflexivity).
+  rewrite forallb_forall in C. intros b Hb.
+  specialize (C (N.to_nat b)). rewrite N2Nat.id in C. apply beqb_eq. apply C.
+  apply in_seq. lia.
+Qed.
 
 (** the model writes its keys in the order of [model_event_keys] (all options on, unnamed thread, ids off) *)
 Example entries_order :
   let o := {| o_flatten := false; o_cur := true; o_list := true; o_ts := Some []; o_level := true; o_target := true;
-              o_file := true; o_line := true; o_tname := true; o_tid := false |} in
-  let st := state_after repo_cfg [ONew 0 [] PRoot []; OEnter 0] in
+              o_file := true; o_line := true; o_tname := true; o_tid := false;
+              o_new := false; o_enter := false; o_exit := false; o_close := false |} in
+  let st := state_after repo_cfg [ONew 0 (meta_named []) PRoot []; OEnter 0] in
   let e := {| ev_level := 0; ev_target := []; ev_file := Some []; ev_line := Some 1; ev_vals := [] |} in
   map fst (event_entries repo_cfg o {| thread_name := None; thread_id := [] |} st e PCurrent) =
   map bs ["timestamp"; "level"; "fields"; "target"; "filename"; "line_number"; "span"; "spans"; "threadName"]%string.
